@@ -278,6 +278,27 @@ def shapes(tier):
         [scope("single_block", "EXIT", blk="b1"), scope("single_block", "ANYWHERE", "label", blk="b1"), dict(ins("b1", 2, "two"))],
         [scope("all_blocks", "ANYWHERE", "mov"), scope("all_functions", "ENTRY", "jcc_tmp", fpos="ENTRY")],
     ]
+    if tier == "thorough":
+        # every ordered pair of scope registrations (same pass and two passes), plus a third registration via insert_at
+        basic = []
+        for pos in positions:
+            basic.append(scope("all_blocks", pos))
+            basic.append(scope("single_block", pos, blk="b1"))
+            for fpos in ("ENTRY", "EXIT"):
+                basic.append(scope("all_functions", pos, fpos=fpos))
+        for lname in ("text", "orphan", "call"):
+            for i, m1 in enumerate(basic):
+                for j, m2 in enumerate(basic):
+                    for two_pass in (False, True):
+                        a = copy.deepcopy(m1)
+                        b = copy.deepcopy(m2)
+                        b["patch"] = "two"
+                        if two_pass:
+                            b["pass"] = 1
+                        mods = [a, b, dict(ins("b1", 0, "byte"), **{"pass": 1 if two_pass else 0})]
+                        spec = layouts[lname]()
+                        spec["mods"] = mods
+                        out.append(("%s/pair%d-%d%s" % (lname, i, j, "-2p" if two_pass else ""), spec))
     for lname in ("text", "orphan"):
         for mods in combos:
             spec = layouts[lname]()
